@@ -116,24 +116,24 @@ theorem chunkPath_layouts_differ (key : String) (c : Nat × Nat × Nat × Nat ×
 
 /-- a chunk stored under ANY configuration is read back by `fetch_chunk` (which does not depend
     on the reader's configuration at all), provided the other three candidate paths are unused -/
-theorem fetch_chunk_after_store (cfg : Cfg) (fs fs' : FS) (key : String)
+theorem fetch_chunk_after_store_in (cfg : Cfg) (fs fs' : FS) (key : String)
     (c : Nat × Nat × Nat × Nat × Nat × Nat) (buf : Bytes) (mime : String) (ow : Bool)
-    (hs : storeChunk cfg fs key c buf mime ow = .ok fs')
+    (hs : storeChunkIn cfg fs key c buf mime ow = .ok fs')
     (hfree : ∀ q, (q = chunkPath true key c ∨ q = chunkPath false key c ∨
         q = gzName (chunkPath true key c) ∨ q = gzName (chunkPath false key c)) →
         q ≠ targetOf cfg mime (chunkPath cfg.flat key c) → fs.get q = none) :
-    fetchChunk fs' key c = .ok (.bytes buf) := by
+    fetchChunkIn fs' key c = .ok (.bytes buf) := by
   obtain ⟨d1, d2, d3, d4⟩ := chunkPath_layouts_differ key c
   have g1 : gzName (chunkPath true key c) ≠ chunkPath true key c := gzName_ne _ (by
     obtain ⟨x0, x1, y0, y1, z0, z1⟩ := c; simp [chunkPath])
   have g2 : gzName (chunkPath false key c) ≠ chunkPath false key c := gzName_ne _ (by
     obtain ⟨x0, x1, y0, y1, z0, z1⟩ := c; simp [chunkPath])
-  unfold storeChunk at hs
+  unfold storeChunkIn at hs
   have := writeAt_ok _ _ _ _ _ hs
   subst this
   unfold targetOf contentOf at *
   (
-      unfold fetchChunk probe
+      unfold fetchChunkIn probe
       cases hf : cfg.flat <;> by_cases hcm : compresses cfg mime = true <;>
         simp only [hf, hcm, if_true, if_false, Bool.false_eq_true] at hfree ⊢
       · -- sub-directories, compressed
